@@ -8,8 +8,11 @@ sc_mpi_comm_attach_node_comms
   attach_unequal             maxintrasize != minintrasize (node communicators of different size are not attached)
   attach_split_type          key of MPI_Comm_split_type, (colour, key) of the internode MPI_Comm_split
 sc_shmem.c
-  write_start_basic / write_start_window    the return value per flavour (window: 1 exactly for intrarank 0, after which locks)
-  write_end_window                          who unlocks before the barrier
+  write_start_basic / write_start_window    the return value per flavour; window: which of MPI_Win_unlock / MPI_Barrier / MPI_Win_lock is called
+                                            for which intrarank, the barrier's communicator, and the ORDER of these calls on the
+                                            executed path (<callee>_seq = 1 + the number of these calls made before it): the model
+                                            needs unlock, THEN the barrier on intranode, THEN the exclusive lock of intrarank 0
+  write_end_window                          the same: who unlocks, then the barrier on intranode, then the shared lock
   scan_index_<type> / scan_add_<type>       sc_scan_on_array: the two slot indices and the wrapped sum, for the eight integer types
   prefix_basic / prefix_prescan / prefix_common / prefix_common_prescan / allgather_common
                                             byte counts and offsets: memset size, offset of slot 1 (count * typesize), buffer of the
@@ -88,20 +91,67 @@ def register(GROUPS, c2g, incs, REPO, HERE, STRUCTS, Group):
         # ---- write_start / write_end per flavour
         t, i = c2g.translate_function(fn(fs, "sc_shmem_write_start_basic"), gname="write_start_basic", skip_params=("array", "comm", "intranode", "internode"))
         g.add(t, i)
-        W = "sc_shmem_write_start_window"
-        t, i = sl.emit_block(flat(fn(fs, W)), "write_start_window", ["ret", "MPI_Win_unlock_called", "MPI_Win_lock_called"], W,
-                             params=("intrarank",), ret="ret", want_params=None, effect_called=True,
-                             effects=("sc_shmem_get_win", "MPI_Win_unlock", "MPI_Win_lock") + MPI_OUT, drop_calls=("sc_mpi_check",),
-                             effect_skip_args=dict((m, (0,)) for m in MPI_OUT),
-                             comment="returns (return value, MPI_Win_unlock called, MPI_Win_lock called); "
-                                     "intrarank = what MPI_Comm_rank (intranode) stores")
+        # the lock / barrier calls of the write protocol WITH their order: a SliceT that gives every call of a function in SEQ the extra
+        # ghost output <callee>_seq := 1 + (number of calls of functions in SEQ made so far on the executed path).  Local to this group
+        # (slicelib.py is unchanged): emit_block instantiates sl.SliceT, which is replaced for the duration of the two calls below.
+        SEQ = ("MPI_Win_unlock", "MPI_Barrier", "sc_MPI_Barrier", "MPI_Win_lock")
+
+        class SeqT(sl.SliceT):
+            def scan(self, stmts):
+                super().scan(stmts)
+                self.seq_pre = []
+                gs = []
+                for gk in self.ghosts:
+                    gs.append(gk)
+                    if gk.endswith("_called") and re.sub(r"[0-9]+$", "", gk[:-7]) in SEQ:
+                        self.seq_pre.append(gk[:-7])
+                        gs.append(gk[:-7] + "_seq")
+                self.ghosts = gs
+
+            def ghost_assign(self, pairs, env, rest, K):
+                out = []
+                for key, e in pairs:
+                    if key.endswith("_called") and key[:-7] in self.seq_pre:
+                        before = " + ".join(self.lookup(env, q + "_called") for q in self.seq_pre)
+                        out.append((key[:-7] + "_seq", sl.E("1 + %s" % before, "Z", False)))
+                    out.append((key, e))
+                return super().ghost_assign(out, env, rest, K)
+
+        def emit_protocol(W, gname, outputs, comment):
+            F = fn(fs, W)
+            calls = []
+            sl.walk(F, lambda n: calls.append(sl.callee_name(n)) if n.get("kind") == "CallExpr" and sl.callee_name(n) in SEQ else None)
+            for must in ("MPI_Win_unlock", "MPI_Win_lock"):
+                if calls.count(must) != 1:
+                    raise c2g.Unsupported("%s: %d calls of %s, expected 1" % (W, calls.count(must), must))
+            nb = [c for c in calls if c.endswith("MPI_Barrier")]
+            if len(nb) != 1:
+                raise c2g.Unsupported("%s: %d calls of MPI_Barrier, expected 1" % (W, len(nb)))
+            saved = sl.SliceT
+            sl.SliceT = SeqT
+            try:
+                t, i = sl.emit_block(flat(F), gname, outputs, W,
+                                     params=("intrarank",), ret="ret" if "ret" in outputs else None, want_params=None, effect_called=True,
+                                     effects=("sc_shmem_get_win", "MPI_Win_unlock", "sc_MPI_Barrier", "MPI_Barrier", "MPI_Win_lock") + MPI_OUT,
+                                     drop_calls=("sc_mpi_check",), effect_skip_args=dict((m, (0,)) for m in MPI_OUT), comment=comment)
+            finally:
+                sl.SliceT = saved
+            want = ["intrarank", "array", "comm", "intranode", "internode"]
+            if i["params"][:5] != want or [p for p in i["params"][5:] if not p.endswith("_ret")]:
+                raise c2g.Unsupported("%s: parameters %s" % (W, i["params"]))
+            return t, i
+
+        t, i = emit_protocol("sc_shmem_write_start_window", "write_start_window",
+                             ["ret", "MPI_Win_unlock_called", "MPI_Win_unlock_seq", "MPI_Barrier_called", "MPI_Barrier_seq", "MPI_Barrier_arg0",
+                              "MPI_Win_lock_called", "MPI_Win_lock_seq", "MPI_Win_lock_arg0"],
+                             "returns (return value, MPI_Win_unlock called, its position among the lock/barrier calls, MPI_Barrier called, position, "
+                             "communicator, MPI_Win_lock called, position, lock type); intrarank = what MPI_Comm_rank (intranode) stores")
         g.add(t, i)
-        W = "sc_shmem_write_end_window"
-        t, i = sl.emit_block(flat(fn(fs, W)), "write_end_window", ["MPI_Win_unlock_called", "MPI_Barrier_called", "MPI_Barrier_arg0", "MPI_Win_lock_called"], W,
-                             params=("intrarank",), want_params=None, effect_called=True,
-                             effects=("sc_shmem_get_win", "MPI_Win_unlock", "sc_MPI_Barrier", "MPI_Barrier", "MPI_Win_lock") + MPI_OUT, drop_calls=("sc_mpi_check",),
-                             effect_skip_args=dict((m, (0,)) for m in MPI_OUT),
-                             comment="returns (MPI_Win_unlock called, MPI_Barrier called, its communicator, MPI_Win_lock called)")
+        t, i = emit_protocol("sc_shmem_write_end_window", "write_end_window",
+                             ["MPI_Win_unlock_called", "MPI_Win_unlock_seq", "MPI_Barrier_called", "MPI_Barrier_seq", "MPI_Barrier_arg0",
+                              "MPI_Win_lock_called", "MPI_Win_lock_seq", "MPI_Win_lock_arg0"],
+                             "returns (MPI_Win_unlock called, its position among the lock/barrier calls, MPI_Barrier called, position, communicator, "
+                             "MPI_Win_lock called, position, lock type)")
         g.add(t, i)
         # ---- sc_scan_on_array: one branch per element type
         S = "sc_scan_on_array"
